@@ -504,10 +504,11 @@ def run(ck: Check):
     def subsize_case(g, n, edges, nes, gl, key, k):
         """get_subgraphs_of_size(k): as a set of vertex sets = the connected
         k-subsets (oracle + model); and, as an enumeration, no vertex set may
-        be listed twice.  The code builds CircuitLocation(list(curr_path))
-        from a Python set; for labels >= 8 the iteration order of that set
-        depends on the insertion history, CircuitLocation equality is order
-        sensitive, so the same vertex set can be returned several times."""
+        be listed twice.  (Before the fix b592992 the code built
+        CircuitLocation(list(curr_path)) from a Python set; for labels >= 8
+        the iteration order of that set depends on the insertion history and
+        CircuitLocation equality is order sensitive, so the same vertex set
+        was returned several times.)"""
         r = safe(lambda: g.get_subgraphs_of_size(k))
         impl = r if r == 'raise' else ' ; '.join(
             ' '.join(map(str, l)) for l in
@@ -525,7 +526,8 @@ def run(ck: Check):
                     'than once (in different orders)',
                     {'n': n, 'edges': edges, 'size': k, 'result': dup[:12]})
 
-    # fixed reproducers of the duplicate enumeration (labels >= 8)
+    # reproducers of the former duplicate enumeration (labels >= 8; fixed by
+    # b592992), every seed
     for n, edges, k in [(9, [(0, 8)], 2),
                         (17, [(0, 8), (0, 16), (8, 16)], 3)]:
         g = CouplingGraph(edges, n)
@@ -744,37 +746,6 @@ def run(ck: Check):
         return o_connected(n - 1, [(idx[a], idx[b]) for a, b in nes
                                    if a != q and b != q])
 
-    def subsize_case(g, n, edges, nes, gl, key, k):
-        """get_subgraphs_of_size(k): as a set of vertex sets = the connected
-        k-subsets (oracle + model); and, as an enumeration, no vertex set may
-        be listed twice.  The code builds CircuitLocation(list(curr_path))
-        from a Python set; for labels >= 8 the iteration order of that set
-        depends on the insertion history, CircuitLocation equality is order
-        sensitive, so the same vertex set can be returned several times."""
-        r = safe(lambda: g.get_subgraphs_of_size(k))
-        impl = r if r == 'raise' else ' ; '.join(
-            ' '.join(map(str, l)) for l in
-            sorted({tuple(sorted(l)) for l in r}))
-        add(f'subsize {gl} | {k}', impl, ' ; '.join(
-            ' '.join(map(str, l))
-            for l in o_conn_subsets(n, nes, k)), ('ss', key, k))
-        if r != 'raise':
-            ck.count(('ss-dup', key, k))
-            if len({frozenset(l) for l in r}) != len(r):
-                dup = sorted(tuple(l) for l in r)
-                ck.violation(
-                    'subsize-duplicate-vertex-sets',
-                    'get_subgraphs_of_size lists the same vertex set more '
-                    'than once (in different orders)',
-                    {'n': n, 'edges': edges, 'size': k, 'result': dup[:12]})
-
-    # fixed reproducers of the duplicate enumeration (labels >= 8)
-    for n, edges, k in [(9, [(0, 8)], 2),
-                        (17, [(0, 8), (0, 16), (8, 16)], 3)]:
-        g = CouplingGraph(edges, n)
-        nes = sorted({tuple(sorted(e)) for e in edges})
-        subsize_case(g, n, edges, nes, gline(n, edges), (n, tuple(nes)), k)
-
     for n, edges, small in graphs:
         g = CouplingGraph(edges, n)
         gl = gline(n, edges)
@@ -894,7 +865,7 @@ def run(ck: Check):
             ('qpu', n, tuple(nes), tuple(nrem)))
         ck.bump('qpu_count_dist', str(len(comps)))
 
-    # fixed reproducers of the two known findings (every seed), then all
+    # reproducers of the two former findings (fixed by 2c665e0), then all
     # (graph, remote subset) on <= 4 vertices, then random larger ones
     qpu_case(3, [(0, 2), (1, 2)], [(1, 2)])
     qpu_case(4, [(0, 3), (1, 3), (2, 3)], [(1, 3), (2, 3)])
@@ -940,6 +911,17 @@ def run(ck: Check):
                 'maximal_matching: the result ' + why,
                 {'n': n, 'edges': edges, 'edges_to_ignore': list(ignore),
                  'randomize': randomize, 'result': r})
+        # the same result through the Lean checker `validMatching` (whose
+        # meaning is the theorem C20_maximal_matching)
+        if all(isinstance(e, tuple) and len(e) == 2 and min(e) >= 0
+               for e in list(r) + list(ignore)):
+            add(f'matchcheck {gline(n, edges)} | '
+                + ' '.join(f'{a} {b}' for a, b in ignore) + ' | '
+                + ' '.join(f'{a} {b}' for a, b in r),
+                'true', str(why is None).lower(),
+                ('mmc', n, tuple(sorted(nes)), tuple(ignore), randomize,
+                 tuple(sorted(ms))),
+                'maximal_matching-differs-from-definition')
         ck.count(('mm', n, tuple(sorted(nes)), tuple(ignore), randomize,
                   tuple(sorted(ms))))
         ck.bump('relational_cases', 'maximal_matching')
@@ -960,7 +942,9 @@ def run(ck: Check):
     # ------------------------------------------------------------------
     # get_rooted_minimum_span(root) on connected graphs (relational): n-1
     # pairs (parent, child), each an edge of g, parent already reached, every
-    # vertex reached exactly once.
+    # vertex reached exactly once, and the tree is a BFS tree (depth in the tree
+    # = hop distance from the root).  The DFS pre-order of the listing is not
+    # checked.  The same result goes through the Lean checker validMinSpan.
     for n, edges, small in graphs:
         nes = {tuple(sorted(e)) for e in edges}
         if not o_connected(n, nes):
@@ -982,20 +966,34 @@ def run(ck: Check):
                         break
                     reached.add(pr[1])
                 good = good and len(reached) == n
+            if good:        # "minimum": a BFS tree (tree depth = hop distance)
+                depth = {root: 0}
+                for a, b in r:
+                    depth[b] = depth[a] + 1
+                good = depth == o_hops(n, nes, root)
             if not good:
                 ck.violation(
                     'rooted_span-differs-from-definition',
                     'get_rooted_minimum_span: the result is not a list of n-1 '
                     'graph edges (parent, child) that connects the root to '
-                    'every qudit, parents first',
+                    'every qudit by shortest paths, parents first',
                     {'n': n, 'edges': edges, 'root': root, 'result': r})
+            if isinstance(r, list) and all(
+                    isinstance(x, tuple) and len(x) == 2 for x in r):
+                # through the Lean checker `validMinSpan` (theorem C20_rooted_span)
+                add(f'spancheck {gline(n, edges)} | {root} | '
+                    + ' '.join(f'{a} {b}' for a, b in r),
+                    'true', str(bool(good)).lower(),
+                    ('spanc', n, tuple(sorted(nes)), root, tuple(r)),
+                    'rooted_span-differs-from-definition')
             ck.count(('span', n, tuple(sorted(nes)), root))
             ck.bump('relational_cases', 'rooted_minimum_span')
 
     # ------------------------------------------------------------------
     # malformed renumberings of get_subgraph.  Definition (docstring): the
     # renumbering must be a bijection location -> [0, len(location)); anything
-    # else must raise.  The code only checks len, keys, min == 0, max == len-1.
+    # else must raise.  (Before the fix 494efa1 the code only checked len, keys,
+    # min == 0, max == len-1 and accepted non-injective renumberings.)
     def sg_ren_case(n, edges, loc, ren, kind):
         g = CouplingGraph(edges, n)
         try:
@@ -1025,7 +1023,7 @@ def run(ck: Check):
                          {'n': n, 'edges': edges, 'location': loc,
                           'renumbering': ren, 'impl': impl})
 
-    # the fixed reproducer of the known finding (every seed)
+    # the reproducer of the former finding (fixed by 494efa1), every seed
     sg_ren_case(3, [(0, 1)], (0, 1, 2), {0: 0, 1: 2, 2: 2}, 'noninj')
     for _ in range(20000 if thorough else 1500):
         n, edges, small = rng.choice(graphs)
@@ -1124,8 +1122,10 @@ def run(ck: Check):
         'subset) on <= 4 vertices plus seeded random ones; malformed '
         'get_subgraph renumberings (wrong size / keys / shifted / too large / '
         'non-injective / negative values) whose definition is "must raise"; '
-        'maximal_matching and get_rooted_minimum_span are checked relationally'
-        ' on the implementation only. Kronecker requests (kron-*): random '
+        'maximal_matching and get_rooted_minimum_span depend on set order: '
+        'every real result is checked relationally by a harness oracle and by '
+        'the Lean checkers validMatching / validMinSpan (matchcheck, spancheck)'
+        '. Kronecker requests (kron-*): random '
         'monomial matrices with entries in {0,+-1,+-i} over mixed radixes '
         '2/3/4: otimes of 1-3 operands, ipower with powers -5..7, builder '
         'sequences of 1-4 apply_left/apply_right (random unsorted locations, '
